@@ -536,8 +536,9 @@ func NewTCPPair(poolSize int) (*Pair, error) {
 		return srv.WriteMessage(m)
 	}
 	csm := ref.EncodeTCP(ref.Msg{Code: 7<<5 | 1, Opts: []ref.Opt{{ID: 2, Val: ref.Uint(1152)}, {ID: 4, Val: nil}}})
-	csc.Feed(csm)
-	ssc.Feed(csm)
+	// (in effect before the first exchange: sim.AnnounceBlockwise waits until each connection has processed it)
+	sim.AnnounceBlockwise(csc, cli, csm)
+	sim.AnnounceBlockwise(ssc, srv, csm)
 	p.wg.Add(1)
 	go func() {
 		defer p.wg.Done()
